@@ -204,6 +204,26 @@ def compare(case, present, events):
     return pres, calls, extra
 
 
+def evaluate(cases_of_cfg, obs, k):
+    """pick the case for the client classes the library has; project; compare."""
+    clients = ['sync'] + (['asyncio'] if obs['present']['asyncio'] is not None else [])
+    case = next((c for c in cases_of_cfg if c['clients'] == clients), None)
+    if case is None:
+        raise core.MachineryError(f'no case for clients {clients} in {k}')
+    present = {c: project_present(case, obs['present'][c]) for c in clients}
+    skip = {(c['m'], c['kind']) for c in case['expect']['outofscope']}
+    events = [project_call(case, rec) for rec in obs['calls']]
+    events = [e for e in events if (e['m'], e['kind']) not in skip]
+    order = {(r['rpc'], kd): (i, j) for i, r in enumerate(case['table']) for j, kd in enumerate(('grpc', 'grpc_asyncio', 'rest'))}
+    events.sort(key=lambda e: order[(e['m'], e['kind'])])
+    return case, present, events, compare(case, present, events)
+
+
+def keys_of(diffs):
+    pres, calls, extra = diffs
+    return {vk for vk, _ in pres + extra} | {vk for ds in calls.values() for vk, _ in ds}
+
+
 def trace_cfg(case):
     return dict(apis=case['apis'], rulecode=case['rulecode'], own=case['own'], legacy=case['legacy'], tmpl=case['tmpl'],
                 transports=case['transports'], clients=case['clients'])
@@ -285,18 +305,7 @@ def main(chk, args):
             chk.case(k)
             note(f"{any_case['tmpl']}:generation", k, out['gen_error'], dict(case=any_case, yaml=yaml_of(any_case)))
             continue
-        obs = out['obs']
-        clients = ['sync'] + (['asyncio'] if obs['present']['asyncio'] is not None else [])
-        case = next((c for c in by_key[k] if c['clients'] == clients), None)
-        if case is None:
-            raise core.MachineryError(f'no case for clients {clients} in {k}')
-        present = {c: project_present(case, obs['present'][c]) for c in clients}
-        skip = {(c['m'], c['kind']) for c in case['expect']['outofscope']}
-        events = [project_call(case, rec) for rec in obs['calls']]
-        events = [e for e in events if (e['m'], e['kind']) not in skip]
-        order = {(r['rpc'], kd): (i, j) for i, r in enumerate(case['table']) for j, kd in enumerate(('grpc', 'grpc_asyncio', 'rest'))}
-        events.sort(key=lambda e: order[(e['m'], e['kind'])])
-        pres, calls, extra = compare(case, present, events)
+        case, present, events, (pres, calls, extra) = evaluate(by_key[k], out['obs'], k)
         ncalls += len(events)
         chk.case(k, nontrivial=bool(case['expect']['calls']) or case['legacy'] or case['own'])
         replay = dict(cfg=k, yaml=yaml_of(case), options=options_of(case), own_iam_rpcs=case['own'], predicted=case['expect'],
@@ -323,9 +332,16 @@ def main(chk, args):
             chk.sample(dict(cfg=k, present=present, calls=events[:4]))
     chk.evaluations += ncalls
     # 5. spec -> code verdicts: one violation per key, with the smallest failing configuration as replay
+    rerun = {}
     for vk in sorted(found):
         hits = found[vk]
         k, text, replay = min(hits, key=lambda h: ('/plain/' not in h[0], len(json.dumps(h[2].get('yaml', {}))), h[0]))
+        if k not in rerun:          # a mismatch is re-run once in isolation before it is reported (DESIGN 7.1)
+            again = _work((k, by_key[k][0]))
+            rerun[k] = ({f"{by_key[k][0]['tmpl']}:generation"} if 'gen_error' in again else
+                        keys_of(evaluate(by_key[k], again['obs'], k)[3]) if 'obs' in again else None)
+        if rerun[k] is None or vk not in rerun[k]:
+            raise core.MachineryError(f'mismatch {vk} for {k} did not reproduce in isolation: {text}')
         chk.violation(vk, f'{text}  [{len(hits)} of {len(keys)} configurations, e.g. {k}]', replay)
     # 6. code -> spec
     accepted, rejected, runs = tlc.validate_all('MixinsTrace', 'MixinsTrace.cfg', [t for _, t in good], timeout=1500)
